@@ -716,14 +716,24 @@ for (int n = 0; n < count; n++)
     {
       define++;
 
-      if (ptr + strlen(params + params_ptr[((int)*define) - 1]) >= PARAM_STACK_LEN)
+      // A raw 0x01 byte in the source looks like a parameter marker.
+      const int index = ((int)(uint8_t)*define) - 1;
+
+      if (index < 0 || index >= count)
+      {
+        print_error(asm_context, "Illegal character in macro");
+        asm_context->error = 1;
+        return nullptr;
+      }
+
+      if (ptr + strlen(params + params_ptr[index]) >= PARAM_STACK_LEN)
       {
         print_error(asm_context, "Macro expansion too long");
         asm_context->error = 1;
         return nullptr;
       }
 
-      strcpy(asm_context->def_param_stack_data + ptr, params + params_ptr[((int)*define) - 1]);
+      strcpy(asm_context->def_param_stack_data + ptr, params + params_ptr[index]);
 
       while (*(asm_context->def_param_stack_data + ptr) != 0) { ptr++; }
     }
